@@ -144,15 +144,7 @@ def build(active_known=frozenset()):
         srid = eng.class_id(SR)
         eng.field_types[("ReaderContext", "_reader")] = lambda v: (z3.And(V.is_ref(v), V.cls_of(V.Val.a(v)) == srid), SR)
 
-        def join(e, s, args, kw):
-            sep, lst = args
-            if not (isinstance(sep, str) and sep == "") and not (isinstance(sep, SV) and z3.is_true(z3.simplify(sep.t == V.mk_str("")))):
-                raise Unsupported("str.join with a separator")
-            if not (isinstance(lst, SV) and lst.hint is list):
-                raise Unsupported("str.join of something other than a list")
-            yield s, SV(V.mk_str(JOIN(z3.Select(s.lists, V.Val.a(lst.t)))))
-
-        eng.method_models[(str, "join")] = Model("''.join(list)", join)
+        rsetup_join(eng)
         # \u / \U escapes do not occur in the specified code; the executor still walks that branch before the solver
         # shows it unreachable, so the helper is opaque here (any string)
         eng.models[id(rd._read_unicode_escape_seq)] = Model("_read_unicode_escape_seq (unreachable for the specified code)",
@@ -195,6 +187,18 @@ def build(active_known=frozenset()):
     c.replay_without_model = True
     add_literals(pack)
     return pack
+
+
+def rsetup_join(eng):
+    def join(e, s, args, kw):
+        sep, lst = args
+        if not (isinstance(sep, str) and sep == "") and not (isinstance(sep, SV) and z3.is_true(z3.simplify(sep.t == V.mk_str("")))):
+            raise Unsupported("str.join with a separator")
+        if not (isinstance(lst, SV) and lst.hint is list):
+            raise Unsupported("str.join of something other than a list")
+        yield s, SV(V.mk_str(JOIN(z3.Select(s.lists, V.Val.a(lst.t)))))
+
+    eng.method_models[(str, "join")] = Model("''.join(list)", join)
 
 
 NS_TOK, NAME_TOK = z3.Const("token_ns", V.Val), z3.Const("token_name", V.Val)
@@ -341,6 +345,104 @@ def add_literals(pack):
     c.replay(lambda m, ctx, ob: LIT_REPLAY)
     c.replay_without_model = True
 
+    # ---- the tokenizer: the characters up to the first delimiter, split at the first slash
+    TSEQ = z3.Function("text_chars", z3.IntSort(), z3.IntSort(), V.ValSeq)      # the characters CH(i) .. CH(j-1) as a sequence
+    IDENT_OK = z3.Function("identifier_literal_fullmatch", z3.StringSort(), z3.BoolSort())
+    import re as _re
+
+    ws = [c_ for c_ in R_WS()]
+    delims = [k_ for k_ in rd._read_dispatch if k_ not in ("#", "'", "%", "")]
+
+    def is_delim(c):
+        return z3.Or(c == V.mk_str(""), *[c == V.mk_str(w) for w in ws], *[c == V.mk_str(d) for d in delims])
+
+    def tsetup(eng, st):
+        ksetup(eng, st)
+        rsetup_join(eng)
+
+        def fullmatch(e, s, a, k):
+            pat, t = a[0], a[1]
+            if isinstance(pat, SV):
+                ok_, obj_ = e.unlift_const(pat.t)
+                pat = obj_ if ok_ else pat
+            if pat is not rd.identifier_literal:
+                raise Unsupported("fullmatch of a pattern other than identifier_literal")
+            yield s, SV(z3.If(IDENT_OK(V.Val.s(t.t)), V.mk_bool(True), V.VNone))  # only the truth of the match is used
+
+        eng.method_models[(_re.Pattern, "fullmatch")] = Model("identifier_literal.fullmatch (opaque)", fullmatch)
+
+        def find(e, s, a, k):
+            if len(a) != 2 or not isinstance(a[1], str):
+                raise Unsupported("str.find with a symbolic needle or a range")
+            yield s, SV(V.mk_int(z3.IndexOf(V.Val.s(a[0].t), z3.StringVal(a[1]), 0)))
+
+        eng.method_models[(str, "find")] = Model("str.find", find)
+
+        def split1(e, s, a, k):
+            if not (len(a) == 2 and isinstance(a[1], str) and len(a[1]) == 1 and k.get("maxsplit") == 1):
+                raise Unsupported("str.split other than split(<one character>, maxsplit=1)")
+            t = V.Val.s(a[0].t)
+            i = z3.IndexOf(t, z3.StringVal(a[1]), 0)
+            e.oblige(s, "split(sep, maxsplit=1) is unpacked into two parts only where the separator occurs", i >= 0, "model-pre")
+            yield s, [SV(V.mk_str(z3.SubString(t, 0, i))), SV(V.mk_str(z3.SubString(t, i + 1, z3.Length(t) - i - 1)))]
+
+        eng.method_models[(str, "split")] = Model("str.split(sep, maxsplit=1) where sep occurs", split1)
+
+    c = pack.contract("basilisp.lang.reader:_read_namespaced")
+    c.param("ctx", OBJ(rd.ReaderContext))
+    c.setup(tsetup)
+    c.requires("the stream reader is well-formed", lambda a: R.WF(a.eng, a.pre.st, R.fld(a.pre.st, a.ctx, "_reader")))
+    c.requires("[definition] the characters from the cursor up to the cursor are the empty sequence",
+               lambda a: TSEQ(R.pos(a.pre.st, R.fld(a.pre.st, a.ctx, "_reader")), R.pos(a.pre.st, R.fld(a.pre.st, a.ctx, "_reader"))) == z3.Empty(V.ValSeq))
+    c.raises(rd.SyntaxError)
+
+    def tok_inv(ctx):
+        st, pre = ctx.st, ctx.entry.st
+        r = R.fld(pre, ctx["ctx"], "_reader")
+        p0, p = R.pos(pre, r), R.pos(st, r)
+        items = z3.Select(st.lists, V.Val.a(ctx["tokens"]))
+        facts = [
+            ("the stream reader stays well-formed and is still the context's reader", z3.And(R.WF(ctx.eng, st, r), R.fld(st, ctx["ctx"], "_reader") == r, ctx["reader"] == r)),
+            ("the token so far is exactly the characters passed over, in order", z3.And(p >= p0, items == TSEQ(p0, p), V.is_ref(ctx["tokens"]), V.Val.a(ctx["tokens"]) > 0)),
+            ("no character of the token so far is a delimiter",
+             R.forall_k(z3.Implies(z3.And(R.k >= p0, R.k < p), z3.Not(is_delim(R.CH(R.k)))), R.CH(R.k)) if ctx.assuming else z3.Implies(z3.And(R.ANYIDX >= p0, R.ANYIDX < p), z3.Not(is_delim(R.CH(R.ANYIDX))))),
+        ]
+        if ctx.assuming:  # the definition of "the characters from p0 on", unfolded at the cursor
+            facts.append(("", z3.And(TSEQ(p0, p0) == z3.Empty(V.ValSeq), TSEQ(p0, p + 1) == z3.Concat(TSEQ(p0, p), z3.Unit(R.CH(p))), V.is_str(R.CH(p)), R.ONECHAR(R.CH(p)))))
+        return facts
+
+    c.loop(0, invariant=tok_inv, frame=["_idx"], lists=True, ghost=("n_read",), aux=("dqv", "dqn"))
+
+    def tok_ident(a):
+        pre, post = a.pre.st, a.post.st
+        r = R.fld(pre, a.ctx, "_reader")
+        return JOIN(TSEQ(R.pos(pre, r), R.pos(post, r)))
+
+    def tok_post(a):
+        pre, post = a.pre.st, a.post.st
+        r = R.fld(pre, a.ctx, "_reader")
+        p0, p1 = R.pos(pre, r), R.pos(post, r)
+        ident = tok_ident(a)
+        i = z3.IndexOf(ident, z3.StringVal("/"), 0)
+        parts = V.seq_of(V.Val.a(a.result))
+        whole = z3.Or(ident == z3.StringVal("/"), i < 0)
+        return z3.And(R.WF(a.eng, post, r), p1 >= p0, is_delim(R.CH(p1)), z3.Implies(z3.And(R.ANYIDX >= p0, R.ANYIDX < p1), z3.Not(is_delim(R.CH(R.ANYIDX)))),
+                      IDENT_OK(ident), z3.Length(parts) == 2,
+                      parts[0] == z3.If(whole, V.VNone, V.mk_str(z3.SubString(ident, 0, i))),
+                      parts[1] == z3.If(whole, V.mk_str(ident), V.mk_str(z3.SubString(ident, i + 1, z3.Length(ident) - i - 1))))
+
+    c.ensures("the token is the run of characters from the cursor up to (not including) the first delimiter - end of text, whitespace, or a character that opens "
+              "another form; it is split at its first slash into namespace and name (a lone / and a token without slash have no namespace); the cursor stops on the delimiter", tok_post)
+    c.raises_only_if("a syntax error only when the token is not an identifier literal", (rd.SyntaxError,), lambda a: z3.Not(IDENT_OK(tok_ident(a))))
+    c.replay(lambda m, ctx, ob: LIT_REPLAY)
+    c.replay_without_model = True
+
+
+def R_WS():
+    import sys as _sys
+
+    return [chr(cp) for cp in range(_sys.maxunicode + 1) if chr(cp).isspace()] + [","]
+
 
 LIT_REPLAY = r'''
 from basilisp.lang import reader
@@ -355,6 +457,17 @@ for v in (None, True, False):
     if not (len(q) == 1 and q[0] is v):
         bad.append("%r inside a syntax-quote reads as %r" % (t, q))
 from basilisp.lang import keyword as kw, symbol as sym
+def toks(text):
+    try:
+        return [(type(f).__name__, getattr(f, "ns", None), getattr(f, "name", f)) for f in reader.read_str(text)]
+    except Exception as e:
+        return type(e).__name__
+for text, want in (("a/b/c", [("Symbol", "a", "b/c")]), ("a#b", [("Symbol", None, "a#b")]), ("a'b%c", [("Symbol", None, "a'b%c")]), ("a\tb", [("Symbol", None, "a"), ("Symbol", None, "b")]),
+                   ("a,b", [("Symbol", None, "a"), ("Symbol", None, "b")]), ("a\u2003b", [("Symbol", None, "a"), ("Symbol", None, "b")]), (":k/n x", [("Keyword", "k", "n"), ("Symbol", None, "x")]),
+                   ("/", [("Symbol", None, "/")]), ("a.b/c.d", [("Symbol", "a.b", "c.d")])):
+    got = toks(text)
+    if got != want:
+        bad.append("%r tokenizes as %r, expected %r" % (text, got, want))
 for v in (kw.keyword("a"), kw.keyword("b", ns="n.s"), kw.keyword("x-y?"), sym.symbol("a"), sym.symbol("b", ns="n.s"), sym.symbol("+"), sym.symbol("x.y/z") if False else sym.symbol("z", ns="x.y")):
     t = lrepr(v)
     back = list(reader.read_str(t))
